@@ -163,6 +163,8 @@ class Sim:
         self.cleanup = []
         self._digest = hashlib.sha256()
         self.nevents = 0
+        self.watch_lines = None     # {(filename, lineno): tag} -> line_hook(tag, frame) when traced
+        self.line_hook = None
         self.spin_limit = 15.0      # wall seconds without any yield point => CPU spin (0 disables)
         self.spin_info = None
 
@@ -538,6 +540,16 @@ class Sim:
                     self.line_log.append("%s %s:%d %s" % (
                         c.name if c else "?", frame.f_code.co_filename.rsplit("/", 1)[1],
                         frame.f_lineno, frame.f_code.co_name))
+                    sim.preempt_point()
+                return local
+        elif self.watch_lines:
+            watch = self.watch_lines
+
+            def local(frame, event, arg):
+                if event == "line":
+                    tag = watch.get((frame.f_code.co_filename, frame.f_lineno))
+                    if tag is not None:
+                        sim.line_hook(tag, frame)
                     sim.preempt_point()
                 return local
         else:
